@@ -82,6 +82,27 @@ def fft(du, shape=None, os=1):
     return {'op': 'fft', 'du': [rj(du[0]), rj(du[1])], 'shape': [] if shape is None else [int(shape[0]), int(shape[1])], 'os': int(os)}
 
 
+def bridging_case(rng):
+    """three segments whose propagated chips land side by side so that the LAST-listed one may bridge two mutually
+    disjoint earlier ones (all six orders are drawn): exercises the coherent merge of overlapping output fields"""
+    from fractions import Fraction as Fr
+    N = 32
+    lam, z, dx, os_ = Fr(1, 128), Fr(4), (Fr(1, 2), Fr(1, 2)), 1
+    du = (lam * z * os_ / (8 * dx[0]),) * 2
+    segs = np.zeros((3, 4, 6), dtype=int)
+    for k in range(3):
+        segs[k, :, 2 * k:2 * k + 2] = 1
+    amp = np.array([[rng.choice((1, 2, 3)) for _ in range(6)] for _ in range(4)])
+    pist = [rng.randrange(N) for _ in range(3)]
+    opd = sum(segs[k] * pist[k] for k in range(3))
+    shifts = [-2, 0, 2]
+    rng.shuffle(shifts)
+    rowshift = rng.choice((0, 0, 1))
+    fitted = [(Fr(rowshift) * du[0] / (z * os_), -Fr(sc) * du[1] / (z * os_)) for sc in shifts]
+    st = plane('Pupil', amp=amp, opd=opd, mask=segs, px=dx, z=z, fitted=fitted)
+    return {'N': N, 'wf': wf(lam), 'steps': [st, dft(du, (2 + rowshift, 8), (2, 3), os_)], 'thm': 'none', 'bridging': shifts}
+
+
 # ------------------------------------------------------------------------------------------ real run
 def _plane_obj(lentil, st, lam, N):
     amp = st['amp']
